@@ -1,2 +1,3 @@
 pub mod alu;
+pub mod asm;
 pub mod isa;
